@@ -610,6 +610,27 @@ func (g *Gen) evalCall(env *Env, x *SExpr) *Val {
 			specErr(x, "elem needs a struct type")
 		}
 		return &Val{K: KPtr, T: types.NewPointer(t), S: g.elemAddr(t, a.S, j.S)}
+	case "local":
+		// local(name): the value of the function's local variable at the point of evaluation (returns, hints)
+		if x.Args[0].Op != "ident" {
+			specErr(x, "local() takes a variable name")
+		}
+		as := g.localsByName[x.Args[0].Name]
+		if len(as) == 0 {
+			specErr(x, "no local named %s", x.Args[0].Name)
+		}
+		a := as[len(as)-1]
+		vs := env.cur
+		if env.now != nil {
+			vs = env.now
+		}
+		if g.escaping[a] {
+			return g.load(vs, g.vals[a], 0, "")
+		}
+		if v, ok := vs.vars[a]; ok {
+			return v
+		}
+		return g.zeroVal(deref(a.Type()))
 	case "membyte":
 		a := g.eval(env, x.Args[0])
 		i := g.eval(env, x.Args[1])
